@@ -14,7 +14,7 @@ import time
 from collections import Counter
 from pathlib import Path
 
-from . import common, drv, drv_sweep as sw, tables
+from . import common, drv, drv_findings as dfind, drv_hunt as dh, drv_sweep as sw, tables
 
 PID = "C09"
 BUDGET = 5   # "within the tool's own module pass budget (five applications)"; checked against Tables below
@@ -143,9 +143,29 @@ def check(run: common.Run):
     # ---- sweep (not proof): x, f(x), ..., f^7(x)
     fam = sw.build_corpus(run.tier)
     iters = BUDGET + 2
-    budget = 30 if run.tier == "quick" else 1200
+    budget = 70 if run.tier == "quick" else 1200
     deadline = time.time() + budget
     jobs, meta = [], {}
+    # round 4: first statements x undefined names (text inserted into a docstring grows on every application), alias
+    # chains (bounded work per application), and call histories: the whole sequence is run a second time in the same
+    # process (`repeat`), which must converge the same way (seed C09-c: a process-global content history)
+    for i, s in enumerate(dh.first_statement_family()):
+        if run.tier == "thorough" or i % 2 == 0:
+            jid = len(jobs)
+            jobs.append((jid, s, dict(sw.OPTION_COMBOS[i % 8]), iters))
+            meta[jid] = "first_statement"
+    for tag, s in dh.budget_family(big=run.tier == "thorough"):
+        jid = len(jobs)
+        jobs.append((jid, s, dict(sw.OPTION_COMBOS[0]), iters))
+        meta[jid] = "budget:" + tag
+    for i, s in enumerate(dh.alias_chain_family()):
+        jid = len(jobs)
+        jobs.append((jid, s, dict(sw.OPTION_COMBOS[0], repeat=True), iters))
+        meta[jid] = "alias_chains"
+    for i, s in enumerate([x for x in fam["functions"] if sw.valid(x)][:: (12 if run.tier == "quick" else 3)]):
+        jid = len(jobs)
+        jobs.append((jid, s, dict(sw.OPTION_COMBOS[i % 8], repeat=True), iters))
+        meta[jid] = "history:functions"
     # orientation x layout x line length, bracketed lines of 55..70 columns (seeds C09-a, C09-b) come first
     widths = (60, 79, 100)
     for i, (tag, s) in enumerate(sw.bracket_width_family()):
@@ -181,6 +201,7 @@ def check(run: common.Run):
     finally:
         workers.close()
     sweep = Counter()
+    announced = set()
     for jid, r in sorted(results.items()):
         if r.get("skipped"):
             sweep["skipped (time budget)"] += 1
@@ -190,7 +211,24 @@ def check(run: common.Run):
             continue
         verdict, k = sequence_verdict(jobs[jid][1], r["outs"], iters)
         sweep[f"{verdict} after {k}"] += 1
+        if "outs2" in r:
+            v2, k2 = sequence_verdict(jobs[jid][1], r["outs2"], iters)
+            sweep["call-history sequences"] += 1
+            if (v2, k2) != (verdict, k) or r["outs2"][-1:] != r["outs"][-1:]:
+                failing_inputs.append({"kind": "sweep", "what": "the same text formatted again later in the same process converges "
+                                       f"differently ({verdict} after {k} the first time, {v2} after {k2} the second time)",
+                                       "case": {"source": jobs[jid][1], "options": jobs[jid][2], "first": r["outs"][-2:],
+                                                "second": r["outs2"][-2:]}})
+                continue
         if verdict == "fixed" and k <= BUDGET:
+            continue
+        f = dfind.match(findings, {"main.format_code", "fixes.add_missing_imports", "fixes.simplify_assign_immediate_return",
+                                   "fixes.undefine_unused_variables"}, jobs[jid][1])
+        if f is not None:
+            sweep[f"matched {f.id}"] += 1
+            if f.id not in announced:
+                announced.add(f.id)
+                run.known_finding(f.id, f"site={f.fields.get('site')} :: {f.text[:150]}")
             continue
         case = {"source": jobs[jid][1], "options": jobs[jid][2], "verdict": verdict, "k": k,
                 "sequence_lengths": [len(x) for x in r["outs"]], "sequence_tail": r["outs"][-3:]}
@@ -199,7 +237,12 @@ def check(run: common.Run):
                                "case": case})
 
     # ---- verdicts
-    for fi in failing_inputs[:6]:
+    reported_groups = set()
+    for fi in failing_inputs:
+        gkey = (fi.get("kind"), str(fi.get("what"))[:60], fi.get("site"))
+        if gkey in reported_groups or len(reported_groups) >= 24:
+            continue
+        reported_groups.add(gkey)
         run.violation(dict(fi, explanation="the real format_code violates C09 on this input"), True)
     have_input = bool(failing_inputs)
     for d in disagreements[:6]:
